@@ -21,6 +21,7 @@ type InputRec struct {
 	Name string  `json:"name,omitempty"`
 	Val  uint64  `json:"val"`
 	Data []byte  `json:"data,omitempty"`
+	Env  bool    `json:"env,omitempty"` // produced by an environment model, not consumed by the native harness
 	term *Term   // scalar term
 	obj  *Object // bytes object
 	lenT *Term
@@ -55,6 +56,7 @@ type PathStats struct {
 	Forks       int
 	Merges      int
 	SimpQueries int
+	IntervalDecided int
 	Reached     map[string]bool
 	Funcs       map[string]int
 	Samples     []string
@@ -94,7 +96,11 @@ type Path struct {
 	guard      *Term // extra guard active during merged (speculative) evaluation; nil otherwise
 	noFork     bool  // set during speculative merge evaluation
 	concArr    map[int]*Term
+	bounds       map[*Term]ival
+	noIntervals  bool
 	impliedMemo  map[[2]int]int
+	traceKeyS    string
+	traceKeyN    int
 	noSolverSimp bool
 	mergeBaseObj int
 	mergeBudget  int64
@@ -220,6 +226,7 @@ func (p *Path) assertPC(t *Term) {
 		return
 	}
 	p.solver.Assert(t)
+	p.learn(t)
 }
 
 func (p *Path) withGuard(t *Term) *Term {
@@ -264,6 +271,16 @@ func (p *Path) branch(cond *Term) bool {
 
 // probe asks the solver which outcomes of cond are feasible under the path condition.
 func (p *Path) probe(cond *Term) (bool, bool) {
+	if !p.noIntervals {
+		switch p.decide(cond, 0) {
+		case 1:
+			p.st.IntervalDecided++
+			return true, false
+		case -1:
+			p.st.IntervalDecided++
+			return false, true
+		}
+	}
 	rT, _, e1 := p.solver.CheckWith(cond, nil)
 	if rT == Unknown {
 		p.st.Inconcl = append(p.st.Inconcl, "feasibility unknown at "+p.where()+" "+e1)
@@ -452,7 +469,7 @@ func (p *Path) buildViolation(kind, tag, msg string, get func([]*Term) []uint64)
 	vals := get(terms)
 	k := 0
 	for _, in := range p.inputs {
-		rec := InputRec{Kind: in.Kind, Name: in.Name, Val: in.Val}
+		rec := InputRec{Kind: in.Kind, Name: in.Name, Val: in.Val, Env: in.Env}
 		if in.term != nil {
 			rec.Val = vals[k]
 			k++
@@ -485,7 +502,20 @@ func (p *Path) buildViolation(kind, tag, msg string, get func([]*Term) []uint64)
 }
 
 func (p *Path) addInput(kind string, t *Term) {
-	p.inputs = append(p.inputs, &InputRec{Kind: kind, term: t, Name: t.Name})
+	p.inputs = append(p.inputs, &InputRec{Kind: kind, term: t, Name: t.Name, Env: p.inModel()})
+}
+
+// inModel reports whether execution is inside a substituted environment model.
+func (p *Path) inModel() bool {
+	for _, f := range p.stack {
+		if p.eng.isStubFn[f.fn] {
+			return true
+		}
+		if f.fn.Pkg != nil && f.fn.Pkg.Pkg.Path() == vfPkg && f.fn.Name() != "Time" {
+			return true
+		}
+	}
+	return false
 }
 
 func (p *Path) note(assumption string) {
